@@ -30,6 +30,28 @@ pub fn exec(c: &[i64]) -> Vec<i64> {
                     let _ = unit.trigger(&mut ctx, &mut tx, &Object::Engine(e));
                     i += 5;
                 }
+                5 | 6 => {
+                    // an engine command (5) or a status frame (6) handled by the other task while tick is between reading
+                    // the shared context and emitting its frame
+                    let kind = evs[i];
+                    let shared = ctx.clone();
+                    let (used, action): (usize, Box<dyn FnOnce() -> Vec<j1939::Frame>>) = if kind == 5 {
+                        let Ok(st) = EngineState::try_from(evs[i + 4] as u8) else { return vec![-2] };
+                        let e = Engine { driver_demand: evs[i + 1] as u8, actual_engine: evs[i + 2] as u8, rpm: evs[i + 3] as u16, state: st };
+                        (5, Box::new(move || { let u2 = VolvoD7E::new("vcan0", da, sa); let mut c2 = shared; let mut t2 = Vec::new(); let _ = u2.trigger(&mut c2, &mut t2, &Object::Engine(e)); t2 }))
+                    } else {
+                        let data: Vec<u8> = evs[i + 1..i + 9].iter().map(|b| *b as u8).collect();
+                        let id = (3u32 << 26) | (61444 << 8) | da as u32;
+                        (9, Box::new(move || { let u2 = VolvoD7E::new("vcan0", da, sa); let mut c2 = shared; let mut rx = Vec::new(); let _ = u2.try_recv(&mut c2, &mk_frame(id, &data), &mut rx); Vec::new() }))
+                    };
+                    crate::hook::arm_hook("volvo_ems", action);
+                    let _ = unit.tick(&mut ctx, &mut tx);
+                    let (done, pending) = crate::hook::disarm_hook();
+                    let tx2 = match (done, pending) { (Some(t), _) => t, (None, Some(f)) => f(), _ => Vec::new() };
+                    n += 1; enc_frames(&mut out, &tx);
+                    tx = tx2;
+                    i += used;
+                }
                 3 => { let _ = unit.trigger(&mut ctx, &mut tx, &other_object(evs[i + 1])); i += 2; }
                 4 => { std::thread::sleep(std::time::Duration::from_millis(evs[i + 1] as u64)); i += 2; }
                 _ => return vec![-2],
@@ -85,6 +107,27 @@ pub fn gen(o: &Opts, sink: &mut dyn FnMut(Vec<i64>, String)) {
         let mut c = vec![*rng.pick(&[0x00i64, 0x11, 0xee]), *rng.pick(&[0x27i64, 0x00, 0xfe])];
         let len = 4 + rng.below(56);
         for _ in 0..len { let l = if rng.chance(1, 3) { 0 } else { rng.below(12) }; letter(l, &mut rng, &mut c); }
+        sink(c, String::new());
+    }
+    // commands and status frames handled in the MIDDLE of a cycle (between the cycle's reads of the shared context and its
+    // emission): what was accepted / reported is what the following cycles act upon
+    let nm = if o.tier_thorough { 4_000 } else { 400 };
+    for j in 0..nm {
+        k += 1; if !mine(o, k) { continue; }
+        let mut rng = Rng::new(o.seed, 8_600_000 + j);
+        let mut c = vec![0x00i64, 0x27];
+        let len = 3 + rng.below(10);
+        for _ in 0..len {
+            let mut m = Vec::new();
+            match rng.below(5) {
+                0 => c.push(0),
+                1 => { letter(1 + rng.below(7), &mut rng, &mut m); c.extend(&m); }
+                2 => { letter(8 + rng.below(3), &mut rng, &mut m); c.extend(&m); }
+                3 => { letter(8 + rng.below(3), &mut rng, &mut m); if m[0] == 2 { c.push(5); c.extend(&m[1..]); } else { c.extend(&m); } }
+                _ => { letter(1 + rng.below(7), &mut rng, &mut m); if m[0] == 1 { c.push(6); c.extend(&m[1..]); } else { c.extend(&m); } }
+            }
+        }
+        c.push(0); c.push(0);
         sink(c, String::new());
     }
     // timed histories: a wait past the transition timeout in one position
